@@ -261,6 +261,7 @@ func runC08(c *Ctx) {
 		rep.Eval("identity/trust-anchor-carry-over/" + suiteName(su))
 	}
 	runC08Resumption(c, pki)
+	runC08More(c, pki)
 	runC08Scripted(c, pki)
 	runC08MITM(c, pki, mkC, mkS)
 	runC08TLS12(c, pki)
